@@ -12,6 +12,7 @@ import Penguin.Model.Link
 import Penguin.Model.Mux
 import Penguin.Lemmas.Link
 import Penguin.Lemmas.LinkGlue
+import Penguin.Lemmas.PairCor
 
 namespace Penguin.C03
 open Penguin Penguin.Link
@@ -126,6 +127,68 @@ theorem link_countFrame_is_ackStep (e : EP) (i : Nat) (o : Obj) (ho : e.objs[i]?
         (ackStep e i o).objs[i]? = some { o with recvdSince := o.recvdSince + 1 } ∧
         (ackStep e i o).outq = e.outq) :=
   Mux.ackStep_glue e i o ho hoc
+
+
+/-! ### The same for two whole endpoint models joined by FIFO wires (`Penguin.Pair`)
+
+Every interleaving of application calls, transmissions, frame processing and dropped-handle
+notifications on both sides; every pair of options; any number of concurrent flows; ids never drawn
+twice (`Pair.Cfg`).  The composition "two endpoint models over FIFO wires project, per flow and
+direction, onto the link model" is `Pair.established_dir` (Lemmas/PairCor.lean), proved by the
+invariant `Pair.Inv` over all runs (Lemmas/PairMain.lean `run_inv`). -/
+
+open Penguin.Mux Penguin.Pair in
+/-- On every flow established on both endpoints, direction `a → b`: the sender's credit, the `Push`
+    frames in flight, the receiver's queue, its consumed-but-unacknowledged count and the
+    acknowledgements in flight add up to exactly the window `b` advertised; the queue never exceeds
+    it; the window in force is `b`'s configured `rwnd`. -/
+theorem pair_window_never_exceeded {oa ob : Opts} {ra rb : List Nat} (c : Cfg oa ob ra rb) (as : List (Pair.Side × Pair.Act))
+    {x i j : Nat} (e : Established (Pair.run (Pair.init oa ob ra rb) as) x i j) :
+    let p := Pair.run (Pair.init oa ob ra rb) as
+    ∃ oA oB, p.a.objs[i]? = some oA ∧ p.b.objs[j]? = some oB ∧
+      oA.credit + (pushesOf x (pathAB p)).length + oB.rxq.length + oB.recvdSince + (acksOf x (pathBA p)).sum = ob.rwnd ∧
+      oB.rxq.length ≤ ob.rwnd ∧ oB.cap = ob.rwnd := by
+  have h := reach_inv c as
+  have hb : (Pair.run (Pair.init oa ob ra rb) as).b.opts = ob := (run_opts _ as (init_inv oa ob ra rb c.wa c.wb c.nodup c.nonzero)).2
+  have := established_credit h e
+  rw [hb] at this
+  exact this
+
+open Penguin.Mux Penguin.Pair in
+/-- … and the same in the direction `b → a` (the model is symmetric). -/
+theorem pair_window_never_exceeded_rev {oa ob : Opts} {ra rb : List Nat} (c : Cfg oa ob ra rb) (as : List (Pair.Side × Pair.Act))
+    {x i j : Nat} (e : Established (Pair.run (Pair.init oa ob ra rb) as) x i j) :
+    let p := Pair.run (Pair.init oa ob ra rb) as
+    ∃ oB oA, p.b.objs[j]? = some oB ∧ p.a.objs[i]? = some oA ∧
+      oB.credit + (pushesOf x (pathBA p)).length + oA.rxq.length + oA.recvdSince + (acksOf x (pathAB p)).sum = oa.rwnd ∧
+      oA.rxq.length ≤ oa.rwnd ∧ oA.cap = oa.rwnd := by
+  have h := reach_inv c as
+  have ha : (Pair.run (Pair.init oa ob ra rb) as).a.opts = oa := (run_opts _ as (init_inv oa ob ra rb c.wa c.wb c.nodup c.nonzero)).1
+  have := established_credit h.swap e.swap
+  simp only [PS.swap] at this
+  rw [ha] at this
+  exact this
+
+open Penguin.Mux Penguin.Pair in
+/-- A `Push` arriving on an established flow always finds room in the receiver's queue: between two
+    penguin endpoints the overrun branch (`Reset` for exceeding the window) is never taken. -/
+theorem pair_push_always_fits {oa ob : Opts} {ra rb : List Nat} (c : Cfg oa ob ra rb) (as : List (Pair.Side × Pair.Act))
+    {x i j : Nat} (e : Established (Pair.run (Pair.init oa ob ra rb) as) x i j) (d : Bytes) (rest : List Msg)
+    (hab : (Pair.run (Pair.init oa ob ra rb) as).ab = .frame (.push x d) :: rest) :
+    ∃ oB, (Pair.run (Pair.init oa ob ra rb) as).b.objs[j]? = some oB ∧ oB.senderAlive = true ∧ oB.rxOpen = true ∧
+      oB.rxq.length < oB.cap :=
+  established_push_fits (reach_inv c as) e d rest hab
+
+/-! Non-vacuity of the pair theorems: a concrete run (windows 2, threshold 1) that opens a stream,
+    writes three bytes, reads them in two reads, shuts down and reads end-of-stream. -/
+private def pcfg : Mux.Opts := { rwnd := 2, threshold := 1 }
+private def pacts : List (Pair.Side × Pair.Act) :=
+  [(.A, .open 1 [104] 80), (.A, .xmit), (.B, .recv), (.B, .xmit), (.A, .recv), (.A, .runDone), (.B, .accept),
+   (.A, .write 0 [1, 2, 3]), (.A, .xmit), (.B, .recv), (.B, .read 0 2), (.B, .read 0 9), (.B, .xmit), (.A, .recv),
+   (.A, .shutdown 0), (.A, .xmit), (.B, .recv), (.B, .read 0 9)]
+example : Pair.Cfg pcfg pcfg [7, 8] [9, 10] := ⟨by decide, by decide, by decide, by decide⟩
+example : Pair.Established (Pair.run (Pair.init pcfg pcfg [7, 8] [9, 10]) pacts) 7 0 0 :=
+  ⟨by decide, by decide, by decide, by decide⟩
 
 /-! Non-vacuity: a concrete run with an asymmetric configuration (window 2, threshold 1). -/
 example : (run (init 2 1) [.write [1], .write [2], .write [3], .deliver, .read 8, .deliverAck, .write [3]]).sent = 3 := by decide
